@@ -62,9 +62,11 @@ func Run(t *testing.T, seed uint64, prof *Profile, replay []core.Cmd, keepLog bo
 	w.orc = newOracle(w)
 	cur = w
 	ctlog.VerifYield = w.yield
+	ctlog.VerifYieldPoint = w.yieldPoint
 	defer func() {
 		cur = nil
 		ctlog.VerifYield = nil
+		ctlog.VerifYieldPoint = nil
 		for _, in := range w.insts {
 			for _, l := range in.logs {
 				func() {
